@@ -31,7 +31,8 @@ ASSUMPTIONS = [
     'evaluated on its own) before or between the first touches: the reference then holds the '
     'values written so far; everything else about writes is C01\'s',
     'elements of unbounded-range results are compared by position; the extent of the used area '
-    '(trailing blank rows/columns) is not compared',
+    'is only bounded from above: a whole column / row never comes back longer than the last '
+    'cell the workbook holds in that direction (blank cells at the edge may or may not count)',
     'on a loaded model only saved cells are read',
 ]
 
@@ -133,6 +134,8 @@ def gen_case(rnd, tier, index):
     origin = wrnd.choice(('nodata', 'nodata', 'xlsx', 'xlsx', 'yml', 'json', 'pkl'))
     if origin != 'xlsx' and wrnd.random() < 0.3:
         wbgen.add_table_gadget(wrnd, spec)
+    if wrnd.random() < 0.25:
+        wbgen.add_lookup_gadget(wrnd, spec)       # lookups whose tables look alike to Python
     dag = wbgen.Dag(spec)
     cfg = {'origin': origin, 'group': group, 'perm': list(perm)}
     st0 = history.Static({'spec': spec, 'cfg': cfg})
@@ -178,6 +181,9 @@ def gen_case(rnd, tier, index):
         g = [a for a in spec['gadget'] if a in cand]
         wrnd.shuffle(g)
         targets = (g[:3] + [t for t in targets if t not in g])[:N_TARGETS]
+    if spec.get('lookup_gadget') and wrnd.random() < 0.8:
+        lg = [a for a in spec['lookup_gadget'] if a in cand]
+        targets = (lg[:3] + [t for t in targets if t not in lg[:3]])[:N_TARGETS]
     if edge and wrnd.random() < 0.85:
         e = [a for a in edge if a in cand]
         wrnd.shuffle(e)
@@ -188,7 +194,8 @@ def gen_case(rnd, tier, index):
     cfg['targets'] = targets
     order = [targets[i] for i in perm if i < len(targets)]
     ops = [make_touch(rnd, st, a, universe, has_wb, targets, allowed_unbounded) for a in order]
-    if wrnd.random() < 0.33:
+    if wrnd.random() < 0.33 and not knobs['computed_refs']:
+        # (not next to computed references: what an OFFSET points to is no declared precedent)
         # constants that were brought into the model on their own and changed before (or
         # between) the first touches: whatever is compiled afterwards has to see the new value
         from . import c01
@@ -205,7 +212,7 @@ def gen_case(rnd, tier, index):
             if not pool:
                 break
             a = wrnd.choice(pool)
-            v = c01.draw_write(wrnd, dag.cell[a].get('v'))
+            v = c01.draw_write(wrnd, dag.cell[a].get('v'), dag.cell[a].get('w'))
             if isinstance(v, str) and v.startswith('='):
                 continue
             writes.append({'path': 'set', 'a': a, 'v': v})
@@ -264,11 +271,15 @@ class WrongShape(Exception):
     pass
 
 
+class BeyondSheet(Exception):
+    """an unbounded range came back longer than anything the workbook holds in that direction"""
+
+
 class OutsideUsedArea(Exception):
     """an unbounded range was clipped so short that the cell is not in it"""
 
 
-def perform(model, op):
+def perform(model, op, limit=None):
     """returns {cell address: value} for the cells this access path yields"""
     from pycel.excelutil import AddressCell, AddressRange
     path = op['path']
@@ -294,6 +305,8 @@ def perform(model, op):
     if path in ('col', 'row'):
         # rows 1..used; one column: trimmed to a tuple over rows (or a scalar)
         k = (r if path == 'col' else c) - 1
+        if limit is not None and isinstance(res, tuple) and len(res) > limit:
+            raise BeyondSheet(f'{rng} returned {len(res)} elements, the sheet ends at {limit}')
         if not isinstance(res, tuple):
             if k != 0:
                 raise OutsideUsedArea(f'{rng} returned the scalar {values.show(res)}')
@@ -422,10 +435,21 @@ def run_case(case):
                 continue
             count('reads')
             count('path:' + op['path'])
+            limit = None
+            if op['path'] in ('col', 'row'):
+                # nothing in these histories touches a cell the workbook does not have: the
+                # used area cannot reach beyond the last cell of the spec
+                sh = wbgen.split_addr(op['a'])[0]
+                limit = max(wbgen.coord_rc(wbgen.split_addr(x)[1])[0 if op['path'] == 'col' else 1]
+                            for x in st.dag.order if wbgen.split_addr(x)[0] == sh)
             try:
-                got = perform(model, op)
+                got = perform(model, op, limit)
             except WrongShape as exc:
                 violate('wrong-shape', i, op, 'trimmed to the documented shape', str(exc))
+                continue
+            except BeyondSheet as exc:
+                violate('unbounded-range-beyond-the-used-area', i, op,
+                        f'at most {limit} elements', str(exc))
                 continue
             except OutsideUsedArea as exc:
                 kind_e, ev = expected.get(op['a'], ('err', None))
